@@ -115,11 +115,20 @@ func cmdCheck(args []string) int {
 	outDir := filepath.Join(verifDir(), "out", "replay", prop)
 	_ = os.RemoveAll(outDir)
 	run := &propRun{prop: prop, tier: *tier, seed: seed, t0: t0}
-	for _, ct := range roots {
-		run.results = append(run.results, genVCs(w, db, ct))
-	}
+	run.results = make([]*FnResult, len(roots))
 	var wg sync.WaitGroup
 	sem := make(chan struct{}, *workers)
+	for i, ct := range roots {
+		i, ct := i, ct
+		wg.Add(1)
+		sem <- struct{}{}
+		go func() {
+			defer wg.Done()
+			defer func() { <-sem }()
+			run.results[i] = genVCs(w, db, ct)
+		}()
+	}
+	wg.Wait()
 	for _, r := range run.results {
 		r := r
 		// keep only obligations relevant to this property (others are checked under their own property)
@@ -181,6 +190,7 @@ func report(run *propRun, w *World, db *ContractDB) int {
 	assumed := map[string]bool{}
 	notes := map[string]bool{}
 	engineErr := false
+	var unclaimed []string
 	seenKnown := map[string]bool{}
 	var violLines []string
 	handle := func(ob *Obligation, script func() string) {
@@ -235,6 +245,7 @@ func report(run *propRun, w *World, db *ContractDB) int {
 		for _, n := range r.Notes {
 			notes[r.Rel+": "+n] = true
 		}
+		unclaimed = append(unclaimed, r.Unclaimed...)
 		r := r
 		for _, ob := range r.Obs {
 			ob := ob
@@ -289,6 +300,7 @@ func report(run *propRun, w *World, db *ContractDB) int {
 			"undischarged":             nViol,
 			"samples":                  samples,
 			"engine_notes":             noteList,
+			"unproved_not_claimed":     unclaimed,
 			"explanation":              "obligations generated by govc from the go/ssa form of /repo's working tree (build tag verif) for the functions under contract; see DESIGN.md",
 		},
 		"assumptions": assumptions,
